@@ -6,9 +6,11 @@
    variable assignments. *)
 EXTENDS FunctionSyntax, TLC, Json, IOUtils
 CONSTANTS FromFile, Emit, RightAssocMinus      \* canary: a printer that believes `-` associates to the right
-NumTab == [tk \in {"2.000", "0.500", "3.000", "0.250", "1.000", "0.000", "4.000", "1.500"} |->
+\* (the last three: other spellings of a number that float() reads - no leading zero, no fraction digits, an exponent)
+NumTab == [tk \in {"2.000", "0.500", "3.000", "0.250", "1.000", "0.000", "4.000", "1.500", ".5", "3.", "1E0"} |->
              CASE tk = "2.000" -> Two [] tk = "0.500" -> Half [] tk = "3.000" -> I(3) [] tk = "0.250" -> Q(1,4) [] tk = "1.000" -> One
-               [] tk = "0.000" -> Zero [] tk = "4.000" -> I(4) [] tk = "1.500" -> Q(3,2)]
+               [] tk = "0.000" -> Zero [] tk = "4.000" -> I(4) [] tk = "1.500" -> Q(3,2)
+               [] tk = ".5" -> Half [] tk = "3." -> I(3) [] tk = "1E0" -> One]
 Num(tk) == [k |-> "num", tok |-> tk, x |-> NumTab[tk]]
 Var(n) == [k |-> "var", n |-> n]
 Un(o, a) == [k |-> "un", o |-> o, a |-> a]
